@@ -184,7 +184,7 @@ def run_check(pid: str, tier: str, nshards: int | None, examples: int | None) ->
         if len(violations) >= 12:  # enough distinct reports for one run; the rest is only counted
             extra_unreported = locals().get("extra_unreported", 0) + 1
             continue
-        budget = min(120 if tier == "quick" else 400, shrink_left)
+        budget = 0 if os.environ.get("VP_NO_SHRINK") else min(120 if tier == "quick" else 400, shrink_left)
         small, runs = (slot["program"], 0) if budget <= 0 else ddmin_ops(check, slot["program"], sig, budget=budget)
         shrink_left -= runs
         res = safe_run(check, small)
